@@ -254,7 +254,10 @@ fn unique_query(r: &mut Rng, cat: &Catalog) -> String {
     let num: Vec<&ColDef> = t.cols.iter().filter(|c| c.is_numeric()).collect();
     let anyc = r.pick(&t.cols);
     let c2 = r.pick(&t.cols);
-    match r.below(12) {
+    match r.below(14) {
+        // UNION removes duplicate rows, not duplicate values of one column
+        12 => format!("SELECT id, 1 AS k FROM {} UNION SELECT id, 2 AS k FROM {}", t.name, t2.name),
+        13 => format!("SELECT id, {c} FROM {t} UNION SELECT id, {c} FROM {t} WHERE id > 0", c = anyc.name, t = t.name),
         // functions of random(): a draw is unique, a function of it need not be
         10 => format!("SELECT (RANDOM() > 0.5) AS coin, (- RANDOM()) AS neg, id FROM {}", t.name),
         11 => format!("SELECT CASE WHEN RANDOM() > 0.5 THEN 1 ELSE 0 END AS coin, id FROM {}", t.name),
